@@ -101,7 +101,9 @@ class InstallStream(Stream):
             "another source), reinstall, clean (run<k>, runN, named, whole workflow) and manual rm of runN / run<k> on "
             "one workflow in a scratch cylc-run; kinds: numbered (install+clean+reinstall only), mixed, named; "
             "non-trivial = history with >= 2 successful numbered installs or a named/flat install; "
-            "quick 48 histories, thorough 1200 + all 3-op prefixes over a small alphabet")
+            "quick 48 histories, thorough 1200 + all 3-op prefixes over a small alphabet; plus 24 / 600 'populated' histories "
+            "that start from a workflow dir created directly with run numbers from {1..12, 20, 99, 100} (two-digit and "
+            "three-digit numbers) and runN missing / dangling / pointing to a lower run / correct")
 
     # ---- generation -----------------------------------------------------
     def _rand_hist(self, rng, kind):
@@ -154,12 +156,61 @@ class InstallStream(Stream):
                     ops.append(["clean", ["name", rng.randint(0, 1)]])
         return {"ops": ops, "kind": kind}
 
+    POP_NUMS = list(range(1, 13)) + [20, 99, 100]
+
+    def _populated(self, rng):
+        """history starting from a workflow dir that already holds many numbered runs (created directly, as
+        for a user with a long history), with runN missing / dangling / pointing to a lower run / correct"""
+        r = rng.random()
+        if r < 0.35:
+            nums = list(range(1, rng.choice([9, 10, 10, 11, 12]) + 1))
+        elif r < 0.55:
+            nums = sorted(rng.sample(range(1, 13), rng.randint(2, 8)) + rng.sample([20, 99, 100], rng.randint(0, 2)))
+        else:
+            nums = sorted(rng.sample(self.POP_NUMS, rng.randint(1, 9)))
+        top = max(nums)
+        r = rng.random()
+        if r < 0.45:
+            runN = None
+        elif r < 0.60:
+            runN = top + rng.choice([1, 1, 5])          # dangling (the latest run was removed by hand)
+        elif r < 0.72 and len(nums) > 1:
+            runN = rng.choice(nums[:-1])                # tampered: points to a lower run
+        else:
+            runN = top
+        ops, live = [], list(nums)
+        for _ in range(rng.randint(2, 6)):
+            r = rng.random()
+            cand = live + [max(live, default=0) + 1]
+            if r < 0.55:
+                ops.append(["install", 0])
+                live.append(max(live, default=0) + 1)
+            elif r < 0.78:
+                k = rng.choice(cand[-3:] if rng.random() < 0.6 else cand)
+                ops.append(["clean", ["num", k]])
+                live = [x for x in live if x != k]
+            elif r < 0.85:
+                ops.append(["clean", ["runN"]])
+            elif r < 0.92:
+                k = rng.choice(cand[-2:])
+                ops.append(["rm_run", k])
+                live = [x for x in live if x != k]
+            elif r < 0.96:
+                ops.append(["rm_runN"])
+            else:
+                ops.append(["reinstall", ["num", rng.choice(cand)]])
+        if ops[0][0] != "install" and rng.random() < 0.5:
+            ops.insert(0, ["install", 0])
+        return {"init": {"nums": nums, "runN": runN}, "ops": ops, "kind": "populated"}
+
     def gen(self, rng, tier):
         n = 48 if tier == "quick" else 1200
         cases = []
         for i in range(n):
             kind = ("numbered", "mixed", "numbered", "mixed", "named")[i % 5]
             cases.append(self._rand_hist(rng, kind))
+        for i in range(24 if tier == "quick" else 600):
+            cases.append(self._populated(rng))
         if tier == "thorough":
             import itertools
             alpha = [["install", 0], ["clean", ["num", 1]], ["clean", ["num", 2]], ["clean", ["runN"]],
@@ -176,6 +227,13 @@ class InstallStream(Stream):
             {"ops": [I, ["install", 1], I, ["clean", ["runN"]], ["rm_run", 2], ["clean", ["runN"]], I], "kind": "mixed"},
             {"ops": [I, I, ["rm_run", 2], I, ["rm_runN"], I, C(1), C(2), C(3), C(3), ["install_named", 0, 0]],
              "kind": "mixed"},
+            # seeded regression (seeded/C48 demo): run1..run11, clean the latest, install again -> must be run11,
+            # not "run10 already exists" (run numbers compared as strings: run9 > run10)
+            {"ops": [I] * 11 + [C(11), I], "kind": "numbered"},
+            {"init": {"nums": list(range(1, 11)), "runN": None}, "ops": [I, I, C(12), I], "kind": "populated"},
+            {"init": {"nums": [2, 9, 10, 99, 100], "runN": None}, "ops": [I, C(101), ["rm_runN"], I], "kind": "populated"},
+            {"init": {"nums": [1, 2, 3, 10], "runN": 3}, "ops": [I, I], "kind": "populated"},
+            {"init": {"nums": [1, 2, 10], "runN": 11}, "ops": [I, C(1), I], "kind": "populated"},
             # cylc clean <wf>/runN with a dangling runN is refused (get_symlink_dirs: "Invalid symlink")
             {"ops": [I, ["rm_run", 1], ["clean", ["runN"]], I], "kind": "mixed"},
             {"ops": [["install_named", 0, 0], ["install_named", 0, 0], I, ["install_named", 101, 0],
@@ -215,6 +273,16 @@ class InstallStream(Stream):
             w = f"c48w{ci}"
             base = get_workflow_run_dir(w)
             steps = []
+            init = c.get("init")
+            if init and (init["nums"] or init["runN"] is not None):
+                for k in init["nums"]:
+                    os.makedirs(os.path.join(base, f"run{k}"))
+                    with open(os.path.join(base, f"run{k}", "flow.cylc"), "w") as fh:
+                        fh.write(FLOW)
+                os.makedirs(os.path.join(base, "_cylc-install"), exist_ok=True)
+                os.symlink(srcs[0], os.path.join(base, "_cylc-install", "source"))
+                if init["runN"] is not None:
+                    os.symlink(f"run{init['runN']}", os.path.join(base, "runN"))
             for oi, op in enumerate(c["ops"]):
                 for ln in ("cylc-install", "cylc-reinstall"):     # new process in real life
                     lg = logging.getLogger(ln)
@@ -291,14 +359,21 @@ class InstallStream(Stream):
                 q.clist(q.cpair(q.cnat(j), q.cnat(s)) for j, s in L["named"]),
                 q.copt(L["flat"], q.cnat), q.copt(L["source"], q.cnat))
             items.append(q.ctuple(self._cop(op, oi + 1), q.cnat(OUT[st["out"]]), lst))
-        return f"({q.clist(items)} : Install.case)"
+        init = c.get("init") or {"nums": [], "runN": None}
+        ci = q.cpair(q.clist(q.cpair(q.cN(k), q.cnat(0)) for k in init["nums"]), q.copt(init["runN"], q.cN))
+        return f"(({ci}, {q.clist(items)}) : Install.case)"
 
     # ---- oracle ---------------------------------------------------------
     def oracle(self, c, r):
-        prev = {"nums": [], "runN": None, "named": [], "flat": None, "source": None}
-        high = 0            # highest run number ever created
+        init = c.get("init") or {"nums": [], "runN": None}
+        prev = {"nums": [[k, 0] for k in init["nums"]], "runN": init["runN"], "named": [], "flat": None,
+                "source": 0 if init["nums"] else None}
+        high = max(init["nums"], default=0)   # highest run number ever created
         removed_top = False  # some operation removed the then-highest numbered run
-        manual_rm = False
+        manual_rm = init["runN"] is not None and init["runN"] not in init["nums"]   # pre-existing dangling runN
+        # the pre-existing runN was pointed by hand at a run that is not the highest: until an install resets it,
+        # get_next_rundir_number follows it (refusal "already exists" / a number below the highest are then expected)
+        tampered = init["runN"] in init["nums"] and init["runN"] != max(init["nums"])
         for oi, (op, st) in enumerate(zip(c["ops"], r["steps"])):
             L, out = st["listing"], st["out"]
             where = f"step {oi + 1} {op}"
@@ -319,7 +394,7 @@ class InstallStream(Stream):
                         return f"{where}: install changed existing named run {NAMES[j]}"
                 if prev["flat"] is not None and L["flat"] != prev["flat"]:
                     return f"{where}: install changed the existing flat run dir"
-                if op[0] == "install" and out == "exists":
+                if op[0] == "install" and out == "exists" and not tampered:
                     return f"{where}: numbered install refused with 'already exists': the number chosen was taken"
                 new = sorted(set(cn) - set(pn))
                 if op[0] != "install" and new:
@@ -330,11 +405,11 @@ class InstallStream(Stream):
                     return f"{where}: successful numbered install created no run dir"
                 if new:
                     k = new[0]
-                    if k <= pmax:
+                    if k <= pmax and not tampered:
                         return f"{where}: new run{k} is not above the existing runs (max run{pmax})"
                     if prev["runN"] is not None and prev["runN"] in pn and k <= prev["runN"]:
                         return f"{where}: new run{k} is not above runN's target run{prev['runN']}"
-                    if k <= high and not removed_top:
+                    if k <= high and not removed_top and not tampered:
                         return f"{where}: run number {k} re-used although the highest run was never removed"
                     if cn[k] != oi + 1:
                         return f"{where}: new run{k} does not hold this install's content (stamp {cn[k]})"
@@ -346,14 +421,19 @@ class InstallStream(Stream):
             else:
                 if set(cn) - set(pn):
                     return f"{where}: a non-install operation created run dirs"
+                if (op[0] != "rm_runN" and prev["runN"] is not None and prev["runN"] in cn
+                        and L["runN"] != prev["runN"]):
+                    return (f"{where}: runN (-> run{prev['runN']}, which still exists) was removed or changed "
+                            f"by an operation on another run")
             if op[0] == "rm_run":
                 manual_rm = True
             if pn and pmax not in cn:
                 removed_top = True
             # runN, when present and not dangling, is the highest existing run
+            tampered = tampered and L["runN"] is not None and L["runN"] in cn and L["runN"] != max(cn)
             if L["runN"] is not None:
                 if L["runN"] in cn:
-                    if L["runN"] != max(cn):
+                    if L["runN"] != max(cn) and not tampered:
                         return f"{where}: runN -> run{L['runN']} but run{max(cn)} exists"
                 elif not manual_rm:
                     return f"{where}: runN -> run{L['runN']} dangles although nothing was removed by hand"
@@ -364,9 +444,9 @@ class InstallStream(Stream):
         n_ok = sum(1 for op, st in zip(c["ops"], r["steps"]) if st["out"] == "ok" and op[0] == "install")
         other = any(st["out"] == "ok" and op[0] in ("install_named", "install_flat")
                     for op, st in zip(c["ops"], r["steps"]))
-        if n_ok < 2 and not other:
+        if n_ok < 2 and not other and not (c.get("init") and n_ok >= 1):
             return None
-        return super().key({"ops": c["ops"]}, r)
+        return super().key({"ops": c["ops"], "init": c.get("init")}, r)
 
     def classify(self, c, r, failure):
         m = re.match(r"step \d+ \['?(\w+)'?.*?\]: (.*)", failure)
@@ -376,7 +456,13 @@ class InstallStream(Stream):
     def shrink(self, c):
         ops = c["ops"]
         for i in range(len(ops) - 1, -1, -1):
-            yield {"ops": ops[:i] + ops[i + 1:], "kind": c.get("kind", "mixed")}
+            y = {"ops": ops[:i] + ops[i + 1:], "kind": c.get("kind", "mixed")}
+            if c.get("init"):
+                y["init"] = c["init"]
+            yield y
+        if c.get("init") and len(c["init"]["nums"]) > 1:
+            for k in c["init"]["nums"]:
+                yield dict(c, init={"nums": [x for x in c["init"]["nums"] if x != k], "runN": c["init"]["runN"]})
 
 
 STREAMS = [InstallStream()]
